@@ -81,6 +81,11 @@ class PiecewiseTreeRegressor(DecisionTreeRegressor):
 
         if self.criterion == "mselin":
             self._fit_reglin(X, y, sample_weight)
+        else:
+            # removes what a previous fit with criterion='mselin' left
+            for att in ["betas_", "leaves_index_", "leaves_mapping_"]:
+                if hasattr(self, att):
+                    delattr(self, att)
         return self
 
     def _mapping_train(self, X):
